@@ -41,7 +41,7 @@ def definitions(ctx, W):
         "density": rho, "pressure": p, "velocity": V, "velocitymag": vmag,
         "kinetic_energy": rho * v2 / 2, "kinetic-energy": rho * v2 / 2,
         "asound": A.sqrt(c2), "mach": vmag / A.sqrt(c2),
-        "entropy": A.opaque("log", [p / A.pow(rho, gam)]) / (gam - 1),
+        "entropy": ctx.dom.func1("log", p / A.pow(rho, gam)) / (gam - 1),
         "enthalpy": enth, "htot": htot, "rttot": (gam - 1) / gam * htot,
         "ptot": p * A.pow(1 + (gam - 1) / 2 * m2, gam / (gam - 1)),
     }
